@@ -51,6 +51,10 @@ pub struct ArcCfg {
     pub tblcomp: bool,
     /// 0 unsigned, 1 signed (signature file between the user files), 2 signed with the signature file straddling the 64 KiB digest unit
     pub signed: u8,
+    /// bytes in front of the archive (multiple of 512; 0 = the archive starts the file): a self-extracting stub / foreign
+    /// data the MPQ is embedded behind. Every offset stored in the archive is relative to the archive start, so the
+    /// archive bytes themselves are those of the prefix-free build.
+    pub prefix: u32,
 }
 
 impl ArcCfg {
@@ -58,10 +62,14 @@ impl ArcCfg {
         if self.enc { "encrypted" } else { "plain" }
     }
     pub fn label(&self) -> String {
-        format!("v{}|s{}|{}|{}|a{}|t{}|g{}", self.version, self.shift, method_name(self.method), self.enc_name(), self.attr, self.tblcomp as u8, self.signed)
+        let l = format!("v{}|s{}|{}|{}|a{}|t{}|g{}", self.version, self.shift, method_name(self.method), self.enc_name(), self.attr, self.tblcomp as u8, self.signed);
+        if self.prefix == 0 { l } else { format!("{l}|p{}", self.prefix) }
+    }
+    pub fn offset_name(&self) -> &'static str {
+        if self.prefix == 0 { "offset0" } else { "offset>0" }
     }
     pub fn to_json(&self) -> Value {
-        json!({"version": self.version, "sector_shift": self.shift, "method": method_name(self.method), "enc": self.enc_name(), "attributes": self.attr, "compress_tables": self.tblcomp, "signed": self.signed})
+        json!({"version": self.version, "sector_shift": self.shift, "method": method_name(self.method), "enc": self.enc_name(), "attributes": self.attr, "compress_tables": self.tblcomp, "signed": self.signed, "archive_offset": self.prefix})
     }
     pub fn sector(&self) -> usize {
         512usize << self.shift
@@ -181,8 +189,22 @@ pub fn build(cfg: &ArcCfg, seed: u64, path: &Path) -> Result<Built, String> {
         }
         break;
     }
+    let ao = cfg.prefix as usize;
+    if ao != 0 {
+        // embed the finished archive behind `prefix` bytes of foreign data (no MPQ magic on any 512-byte boundary of it)
+        if ao % 512 != 0 {
+            return Err(format!("prefix {ao} is not a multiple of 512"));
+        }
+        let arc = std::fs::read(path).map_err(|e| e.to_string())?;
+        let mut whole: Vec<u8> = (0..ao).map(|i| ((i * 13 + 5) & 0xFF) as u8).collect();
+        whole.extend_from_slice(&arc);
+        std::fs::write(path, &whole).map_err(|e| e.to_string())?;
+    }
     let mut bytes = std::fs::read(path).map_err(|e| e.to_string())?;
     let mut a = Archive::open(path).map_err(|e| format!("open of fresh archive failed: {e}"))?;
+    if a.archive_offset() as usize != ao {
+        return Err(format!("the archive was placed at file offset {ao}, the library found it at {}", a.archive_offset()));
+    }
     let hdr = a.header().clone();
     let header_size = hdr.header_size as usize;
     let mut files: Vec<StoredFile> = Vec::new();
@@ -208,11 +230,11 @@ pub fn build(cfg: &ArcCfg, seed: u64, path: &Path) -> Result<Built, String> {
     // ---- sanity of the layout assumptions: the blocks tile [header, first table)
     let mut order: Vec<usize> = (0..files.len()).collect();
     order.sort_by_key(|&i| files[i].pos);
-    let hash_pos = hdr.get_hash_table_pos() as usize;
-    let block_pos = hdr.get_block_table_pos() as usize;
-    let ext = [hdr.het_table_pos, hdr.bet_table_pos].iter().filter_map(|p| p.filter(|&x| x != 0)).map(|x| x as usize).min();
+    let hash_pos = ao + hdr.get_hash_table_pos() as usize;
+    let block_pos = ao + hdr.get_block_table_pos() as usize;
+    let ext = [hdr.het_table_pos, hdr.bet_table_pos].iter().filter_map(|p| p.filter(|&x| x != 0)).map(|x| ao + x as usize).min();
     let data_end = ext.unwrap_or(hash_pos).min(hash_pos);
-    let mut cur = header_size;
+    let mut cur = ao + header_size;
     for &i in &order {
         if files[i].pos != cur {
             return Err(format!("region map: block of {} starts at {} but the previous block ended at {cur}", files[i].name, files[i].pos));
@@ -283,16 +305,19 @@ pub fn build(cfg: &ArcCfg, seed: u64, path: &Path) -> Result<Built, String> {
     regions.push(Region { kind: "hash_table", file: None, ranges: vec![(hash_pos, hash_pos + hash_len)] });
     regions.push(Region { kind: "block_table", file: None, ranges: vec![(block_pos, block_pos + block_len)] });
     if cfg.version >= 4 && header_size == 208 {
-        regions.push(Region { kind: "v4_header", file: None, ranges: vec![(0, 192)] });
-        regions.push(Region { kind: "v4_header_digest", file: None, ranges: vec![(192, 208)] });
-        regions.push(Region { kind: "v4_digests", file: None, ranges: vec![(112, 208)] });
+        regions.push(Region { kind: "v4_header", file: None, ranges: vec![(ao, ao + 192)] });
+        regions.push(Region { kind: "v4_header_digest", file: None, ranges: vec![(ao + 192, ao + 208)] });
+        regions.push(Region { kind: "v4_digests", file: None, ranges: vec![(ao + 112, ao + 208)] });
         if let Some(e) = ext {
             if e < hash_pos {
                 regions.push(Region { kind: "het_bet_tables", file: None, ranges: vec![(e, hash_pos)] });
             }
         }
     } else {
-        regions.push(Region { kind: "header", file: None, ranges: vec![(0, header_size)] });
+        regions.push(Region { kind: "header", file: None, ranges: vec![(ao, ao + header_size)] });
+    }
+    if ao != 0 {
+        regions.push(Region { kind: "prefix", file: None, ranges: vec![(0, ao)] });
     }
     let baseline_md5 = if cfg.version >= 4 { a.get_info().ok().and_then(|i| i.md5_status) } else { None };
     drop(a);
@@ -303,10 +328,11 @@ pub fn build(cfg: &ArcCfg, seed: u64, path: &Path) -> Result<Built, String> {
         if slen != 72 || files[si].flags & (FLAG_COMPRESS | FLAG_ENCRYPTED) != 0 {
             return Err(format!("(signature) is not stored as 72 plain bytes (csize {slen}, flags {:08x})", files[si].flags));
         }
-        if hdr.archive_size as usize != bytes.len() {
-            return Err(format!("header archive_size {} != file length {}", hdr.archive_size, bytes.len()));
+        if ao + hdr.archive_size as usize != bytes.len() {
+            return Err(format!("archive offset {ao} + header archive_size {} != file length {}", hdr.archive_size, bytes.len()));
         }
-        let info = SignatureInfo::new_weak(0, bytes.len() as u64, spos as u64, 72, vec![]);
+        // positions are absolute file positions, exactly as Archive::verify_signature passes them
+        let info = SignatureInfo::new_weak(ao as u64, hdr.archive_size as u64, spos as u64, 72, vec![]);
         let sig = generate_weak_signature(std::io::Cursor::new(&bytes), &info).map_err(|e| format!("generate_weak_signature: {e}"))?;
         if sig.len() != 72 {
             return Err(format!("generate_weak_signature returned {} bytes", sig.len()));
@@ -315,7 +341,7 @@ pub fn build(cfg: &ArcCfg, seed: u64, path: &Path) -> Result<Built, String> {
         files[si].data = sig;
         std::fs::write(path, &bytes).map_err(|e| e.to_string())?;
         // everything that is hashed: the whole file except the signature file
-        let other: Vec<(usize, usize)> = vec![(header_size, spos), (spos + 72, data_end)];
+        let other: Vec<(usize, usize)> = vec![(ao + header_size, spos), (spos + 72, data_end)];
         regions.push(Region { kind: "stored_files", file: None, ranges: other });
     }
     Ok(Built { path: path.to_path_buf(), bytes, files, regions, sector, baseline_md5 })
@@ -736,7 +762,7 @@ pub fn crc_cfgs(thorough: bool, attrs: &[u8]) -> Vec<ArcCfg> {
         for &method in &[0u8, 0x02] {
             for &enc in &[false, true] {
                 for &attr in attrs {
-                    v.push(ArcCfg { version, shift, method, enc, attr, tblcomp: false, signed: 0 });
+                    v.push(ArcCfg { version, shift, method, enc, attr, tblcomp: false, signed: 0, prefix: 0 });
                 }
             }
         }
@@ -761,7 +787,7 @@ fn specs(thorough: bool) -> Vec<Spec> {
     // K3/K4 version-4 digests
     let v4: &[(bool, bool)] = if thorough { &[(false, false), (true, true), (false, true), (true, false)] } else { &[(false, false), (true, true)] };
     for &(enc, tblcomp) in v4 {
-        let cfg = ArcCfg { version: 4, shift: 0, method: 0x02, enc, attr: 1, tblcomp, signed: 0 };
+        let cfg = ArcCfg { version: 4, shift: 0, method: 0x02, enc, attr: 1, tblcomp, signed: 0, prefix: 0 };
         for &region in &["v4_header", "v4_header_digest", "hash_table", "block_table", "het_bet_tables"] {
             for &ck in cks {
                 v.push(Spec { kind: "v4-digest", cfg: cfg.clone(), file: NOFILE, region, ck, n: 0 });
@@ -773,12 +799,12 @@ fn specs(thorough: bool) -> Vec<Spec> {
     }
     // K5 signed archives
     let mut sg = vec![
-        ArcCfg { version: 1, shift: 0, method: 0x02, enc: false, attr: 0, tblcomp: false, signed: 1 },
-        ArcCfg { version: 1, shift: 8, method: 0, enc: false, attr: 0, tblcomp: false, signed: 2 },
+        ArcCfg { version: 1, shift: 0, method: 0x02, enc: false, attr: 0, tblcomp: false, signed: 1, prefix: 0 },
+        ArcCfg { version: 1, shift: 8, method: 0, enc: false, attr: 0, tblcomp: false, signed: 2, prefix: 0 },
     ];
     if thorough {
-        sg.push(ArcCfg { version: 2, shift: 0, method: 0, enc: true, attr: 0, tblcomp: false, signed: 1 });
-        sg.push(ArcCfg { version: 1, shift: 3, method: 0x02, enc: true, attr: 0, tblcomp: false, signed: 1 });
+        sg.push(ArcCfg { version: 2, shift: 0, method: 0, enc: true, attr: 0, tblcomp: false, signed: 1, prefix: 0 });
+        sg.push(ArcCfg { version: 1, shift: 3, method: 0x02, enc: true, attr: 0, tblcomp: false, signed: 1, prefix: 0 });
     }
     for cfg in sg {
         for &region in &["header", "stored_files", "hash_table", "block_table", "signature", "sig_header"] {
@@ -790,9 +816,51 @@ fn specs(thorough: bool) -> Vec<Spec> {
     // K6 signature functions
     let nsig = if thorough { 600 } else { 200 };
     for n in 0..nsig {
-        v.push(Spec { kind: "sig-fn", cfg: ArcCfg { version: 0, shift: 0, method: 0, enc: false, attr: 0, tblcomp: false, signed: 0 }, file: NOFILE, region: "-", ck: "bitflip", n });
+        v.push(Spec { kind: "sig-fn", cfg: ArcCfg { version: 0, shift: 0, method: 0, enc: false, attr: 0, tblcomp: false, signed: 0, prefix: 0 }, file: NOFILE, region: "-", ck: "bitflip", n });
+    }
+    // K7 the same kinds of metadata in archives that do not start at file offset 0 (embedded behind 512-aligned foreign
+    // data): every verifier has to add the archive offset to what it reads. Appended last so that the indices above stay put.
+    let v4p: &[(bool, bool, u32)] = if thorough { &[(false, false, 512), (true, true, 1536)] } else { &[(false, false, 512)] };
+    for &(enc, tblcomp, prefix) in v4p {
+        let cfg = ArcCfg { version: 4, shift: 0, method: 0x02, enc, attr: 1, tblcomp, signed: 0, prefix };
+        for &region in &["v4_header", "v4_header_digest", "hash_table", "block_table", "het_bet_tables"] {
+            for &ck in cks {
+                v.push(Spec { kind: "v4-digest", cfg: cfg.clone(), file: NOFILE, region, ck, n: 0 });
+            }
+        }
+        for &region in &["hash_table", "block_table"] {
+            v.push(Spec { kind: "v4-digest-paired", cfg: cfg.clone(), file: NOFILE, region, ck: "x01", n: 0 });
+        }
+    }
+    for cfg in prefixed_crc_cfgs(thorough, 1) {
+        for file in 0..3 {
+            for &region in file_regions(file) {
+                for &ck in cks {
+                    v.push(Spec { kind: "sector-crc", cfg: cfg.clone(), file, region, ck, n: 0 });
+                }
+            }
+        }
+        v.push(Spec { kind: "sector-crc-paired", cfg: cfg.clone(), file: 0, region: "unit_crc=0+file_data", ck: "x01", n: 0 });
+    }
+    let sgp = ArcCfg { version: 1, shift: 0, method: 0x02, enc: false, attr: 0, tblcomp: false, signed: 1, prefix: 1024 };
+    let sregs: &[&'static str] = if thorough { &["header", "stored_files", "hash_table", "block_table", "signature", "sig_header"] } else { &["header", "signature"] };
+    for &region in sregs {
+        for &ck in cks {
+            v.push(Spec { kind: "weak-signature", cfg: sgp.clone(), file: NOFILE, region, ck, n: 0 });
+        }
     }
     v
+}
+
+/// Archives with checksums / attributes placed behind a prefix (K7): one configuration in quick, three in thorough.
+pub fn prefixed_crc_cfgs(thorough: bool, attr: u8) -> Vec<ArcCfg> {
+    let all: &[(u8, u16, u8, bool, u32)] = &[(1, 0, 0x02, false, 1024), (2, 3, 0, true, 512), (4, 0, 0x02, true, 2048)];
+    all[..if thorough { 3 } else { 1 }].iter().map(|&(version, shift, method, enc, prefix)| ArcCfg { version, shift, method, enc, attr, tblcomp: false, signed: 0, prefix }).collect()
+}
+
+/// Trigger predicate appended to signatures of archives that do not start at file offset 0 (nothing for the ordinary layout).
+pub fn off_sfx(cfg: &ArcCfg) -> &'static str {
+    if cfg.prefix == 0 { "" } else { "|archive-offset>0" }
 }
 
 /// quick: every 7th offset of bulk regions (every 37th in 4 KiB-sector archives; phase from the seed), every offset of
@@ -887,9 +955,9 @@ fn crc_case(c: &mut Case, sp: &Spec, b: &Built, stride: usize, phase: usize) {
         }
         match probe_read(&b.path, f) {
             Verdict::Harmless => {}
-            Verdict::Detected(by) => c.violate(format!("intact-fails|sector-crc|read_file|{}|{method}|{enc}", f.shape_sig()), format!("reading {} from the unmodified archive fails ({by})", f.name), json!({})),
-            Verdict::Undetected(d) => c.violate(format!("intact-differs|sector-crc|read_file|{}|{method}|{enc}", f.shape_sig()), format!("{} reads back different from what was added", f.name), d),
-            Verdict::Crash(s) => c.violate(format!("intact-fails|sector-crc|read_file|{}|{method}|{enc}|{s}", f.shape_sig()), format!("reading {} from the unmodified archive panics", f.name), json!({})),
+            Verdict::Detected(by) => c.violate(format!("intact-fails|sector-crc|read_file|{}|{method}|{enc}{}", f.shape_sig(), off_sfx(&sp.cfg)), format!("reading {} from the unmodified archive fails ({by})", f.name), json!({})),
+            Verdict::Undetected(d) => c.violate(format!("intact-differs|sector-crc|read_file|{}|{method}|{enc}{}", f.shape_sig(), off_sfx(&sp.cfg)), format!("{} reads back different from what was added", f.name), d),
+            Verdict::Crash(s) => c.violate(format!("intact-fails|sector-crc|read_file|{}|{method}|{enc}|{s}{}", f.shape_sig(), off_sfx(&sp.cfg)), format!("reading {} from the unmodified archive panics", f.name), json!({})),
         }
     }
     if !c.viol.is_empty() {
@@ -918,7 +986,9 @@ fn crc_case(c: &mut Case, sp: &Spec, b: &Built, stride: usize, phase: usize) {
     if t.violated > 0 {
         // multi-sector files: the defect (sector checksums never compared) does not depend on encryption -> one signature per (region, method)
         let enc_sig = if f.shape_sig() == "multi-sector" { "any" } else { enc };
-        let sig = format!("undetected|sector-crc|{}|{}|{method}|{enc_sig}", sp.region, f.shape_sig());
+        // (and not on where the archive starts: the known multi-sector findings keep their signatures behind a prefix)
+        let sfx = if f.shape_sig() == "multi-sector" { "" } else { off_sfx(&sp.cfg) };
+        let sig = format!("undetected|sector-crc|{}|{}|{method}|{enc_sig}{sfx}", sp.region, f.shape_sig());
         c.violate(sig, format!("{} of {} alterations ({}) in the {} of the {} file {:?} ({method}, {enc}): read_file returned Ok with content different from the original", t.violated, t.probes, sp.ck, sp.region, f.shape, f.name), t.first_viol.clone().unwrap_or(json!({})));
     }
 }
@@ -927,19 +997,19 @@ fn v4_case(c: &mut Case, sp: &Spec, b: &Built, stride: usize, phase: usize) {
     let (method, enc) = (method_name(sp.cfg.method), sp.cfg.enc_name());
     c.count("baseline_verifications", 1);
     let Some(base) = &b.baseline_md5 else {
-        c.violate(format!("intact-fails|v4-digest|md5_status-absent|archive|{method}|{enc}"), "get_info().md5_status is None for a freshly built version-4 archive", json!({}));
+        c.violate(format!("intact-fails|v4-digest|md5_status-absent|archive|{method}|{enc}{}", off_sfx(&sp.cfg)), "get_info().md5_status is None for a freshly built version-4 archive", json!({}));
         return;
     };
     let bad: Vec<&str> = md5_fields(base).iter().filter(|x| !x.1).map(|x| x.0).collect();
     if !bad.is_empty() {
         // recorded, and the sweep goes on relative to this baseline: a digest that is invalid on the intact archive cannot report anything
-        c.violate(format!("intact-fails|v4-digest|{}|archive|any|any", bad.join("+")), format!("md5_status of the unmodified version-4 archive reports invalid digests: {}", bad.join(", ")), json!({"md5_status": format!("{base:?}")}));
+        c.violate(format!("intact-fails|v4-digest|{}|archive|any|any{}", bad.join("+"), off_sfx(&sp.cfg)), format!("md5_status of the unmodified version-4 archive reports invalid digests: {}", bad.join(", ")), json!({"md5_status": format!("{base:?}")}));
         c.count("v4_baseline_invalid_fields", bad.len() as u64);
     }
     match probe_v4(b) {
         Verdict::Harmless => {}
         _ => {
-            c.violate(format!("intact-fails|v4-digest|read_file|archive|{method}|{enc}"), "the unmodified version-4 archive does not read back identically", json!({}));
+            c.violate(format!("intact-fails|v4-digest|read_file|archive|{method}|{enc}{}", off_sfx(&sp.cfg)), "the unmodified version-4 archive does not read back identically", json!({}));
             return;
         }
     }
@@ -967,7 +1037,7 @@ fn v4_case(c: &mut Case, sp: &Spec, b: &Built, stride: usize, phase: usize) {
         c.nontrivial = false;
     }
     if t.violated > 0 {
-        c.violate(format!("undetected|v4-digest|{rname}|archive|{method}|{enc}"), format!("{} of {} alterations ({}) of {rname}: open succeeded, md5_status reported nothing new, and a file read back Ok with different content", t.violated, t.probes, sp.ck), t.first_viol.clone().unwrap_or(json!({})));
+        c.violate(format!("undetected|v4-digest|{rname}|archive|{method}|{enc}{}", off_sfx(&sp.cfg)), format!("{} of {} alterations ({}) of {rname}: open succeeded, md5_status reported nothing new, and a file read back Ok with different content", t.violated, t.probes, sp.ck), t.first_viol.clone().unwrap_or(json!({})));
     }
 }
 
@@ -984,7 +1054,7 @@ fn signed_case(c: &mut Case, sp: &Spec, b: &Built, stride: usize, phase: usize) 
                 Ok(Err(e)) => format!("Err({e})"),
                 Err(p) => p.sig(),
             };
-            c.violate(format!("intact-fails|weak-signature|verify_signature|{placement}|{method}|{enc}"), format!("an archive signed with generate_weak_signature does not verify: verify_signature() = {s}"), json!({"archive_len": b.bytes.len(), "signature_pos": b.files.iter().find(|f| f.shape == "signature").map(|f| f.pos)}));
+            c.violate(format!("intact-fails|weak-signature|verify_signature|{placement}|{method}|{enc}{}", off_sfx(&sp.cfg)), format!("an archive signed with generate_weak_signature does not verify: verify_signature() = {s}"), json!({"archive_len": b.bytes.len(), "signature_pos": b.files.iter().find(|f| f.shape == "signature").map(|f| f.pos)}));
             return;
         }
     }
@@ -1007,7 +1077,7 @@ fn signed_case(c: &mut Case, sp: &Spec, b: &Built, stride: usize, phase: usize) 
         c.nontrivial = false;
     }
     if t.violated > 0 {
-        c.violate(format!("still-verifies|weak-signature|{}|{placement}|{method}|{enc}", sp.region), format!("{} of {} alterations ({}) of {}: verify_signature() still answers WeakValid", t.violated, t.probes, sp.ck, sp.region), t.first_viol.clone().unwrap_or(json!({})));
+        c.violate(format!("still-verifies|weak-signature|{}|{placement}|{method}|{enc}{}", sp.region, off_sfx(&sp.cfg)), format!("{} of {} alterations ({}) of {}: verify_signature() still answers WeakValid", t.violated, t.probes, sp.ck, sp.region), t.first_viol.clone().unwrap_or(json!({})));
     }
 }
 
